@@ -159,7 +159,7 @@ Section Seq.
       + destruct (variadic && pack); [|discriminate Ep].
         destruct (_ <? 0); [injection Ep as <-; discriminate H|].
         destruct (popn _ ops []) as [[vargs rest]|]; [|injection Ep as <-; discriminate H].
-        destruct (new_slice _ _ _). discriminate Ep.
+        destruct (variadic_arg _ _ _ _). discriminate Ep.
     - destruct (_ || _); [|discriminate H].
       destruct (negb pack); [discriminate H|].
       destruct (popn _ ops []) as [[args rest]|]; [|discriminate H].
